@@ -559,11 +559,16 @@ String String::concat(const char* b, int n) const
 
 void String::append(const char* b, int n)
 {
+	const char* s0 = str();
+	bool own = b >= s0 && b <= s0 + _len; // appending (a piece of) this same string
+	int off = int(b - s0);
 	if(_len+n >= _size)
 		resize(_len+n);
 	else
 		_len += n;
 	char* s = str();
+	if (own)
+		b = s + off; // the buffer may have moved
 	memcpy(s+_len-n, b, n);
 	s[_len] = '\0';
 }
